@@ -108,6 +108,7 @@ def replay(body):
 def run(ctx):
     rng = ctx.rng
     ctx.check_theorems()
+    ctx.check_generated(['vfit'])
     exprs, meta = [], []
     for k in range(ctx.n(60, 600)):
         idx, pos, w = gen(rng)
